@@ -62,6 +62,22 @@ def base58check_str(self: Bytes(cls=CBase58Data, attrs={'nVersion': Int}), *, v:
     ensures(result == b58enc(le_bytes(v, 1) + self + check4(le_bytes(v, 1) + self)))
 
 
+@contract('bitcoin.base58:CBase58Data.__str__', name='str_decodes_back_after_others', prop=P)
+def str_decodes_back_after_others(self: Any, *, v: Int, payload: Bytes):
+    """BOUNDED (added after seeding round 7): the text of (version, payload) is the reference encoding and decodes back
+    to the same version and payload - asked directly after the text of the SAME payload under ANOTHER version (and of
+    an equal object) was produced, so that a text remembered per payload shows"""
+    option(bounded=400)
+    ensures(result == b58enc(le_bytes(v, 1) + payload + check4(le_bytes(v, 1) + payload)))
+    ensures(bytes(CBase58Data(result)) == payload and CBase58Data(result).nVersion == v)
+
+
+def _after_other(payload, v, v_other):
+    for w in (v_other, v, v_other):
+        str(CBase58Data.from_bytes(payload, w))
+    return CBase58Data.from_bytes(payload, v)
+
+
 # ---- generators for the bounded units -------------------------------------------------------
 from pyvc import replay as _replay
 
@@ -89,11 +105,22 @@ def _mut(rng, s):
     """strings near the alphabet: one foreign character somewhere"""
     if s and rng.random() < 0.3:
         i = rng.randrange(len(s))
+        if rng.random() < 0.5:
+            # characters that ALIAS an alphabet character under a lossy lookup: same low byte / low 16 bits, full-width
+            # form, other case (added after seeding round 7: a 256-entry table indexed by ord(c) & 0xff)
+            c = rng.choice(ALPHABET)
+            cands = [chr(ord(c) + 0x100 * rng.randint(1, 255)), chr(ord(c) + 0x10000), chr(ord(c) + 0xFEE0),
+                     chr(ord(c) + 0x80), chr(ord(c) | 0x2000)]
+            cands += [x for x in (c.upper(), c.lower()) if x not in ALPHABET]
+            return s[:i] + rng.choice(cands) + s[i + 1:]
         return s[:i] + rng.choice('0OIl+/ =\n\x00é\u0100\u212a\uffff\U0001F600') + s[i + 1:]
     return s
 
 
 _replay.GENERATORS.update({
+    'str_decodes_back_after_others': lambda rng: (lambda pl, v, w: {
+        'self': {'__obj__': 'contracts.c10:_after_other', 'args': [_bj(pl), v, w]}, 'v': v, 'payload': _bj(pl)})(
+            _rb(rng), rng.choice([0, 5, 111, 128, 196, 239, 255, rng.randrange(256)]), rng.choice([0, 5, 111, 128, 196, 255])),
     'encode_is_reference': lambda rng: {'b': _bj(_rb(rng))},
     'decode_is_reference': lambda rng: {'s': _mut(rng, _rs(rng))},
     'decode_inverts_encode': lambda rng: (lambda b: {'b': _bj(b), 's': b58enc(b)})(_rb(rng)),
